@@ -9,6 +9,7 @@ import (
 	"reflect"
 	"sort"
 	"strings"
+	"sync"
 
 	"sigs.k8s.io/kustomize/kyaml/kio"
 	"sigs.k8s.io/kustomize/kyaml/kio/filters"
@@ -994,14 +995,18 @@ func keySkel20(v interface{}, path string, wl bool) interface{} {
 }
 
 var typedKeyCache20 = map[string]string{}
+var typedKeyMu20 sync.Mutex
 
 // typedKey20: the key as YAML 1.1 / JSON reads it (`yes`, `on`, `true` are all the key "true"; `010` is "8").
 func typedKey20(k *yaml.Node) string {
 	if k.Kind != yaml.ScalarNode || k.Style != 0 || k.Tag == "!!str" && !kyaml.IsValueNonString(k.Value) {
 		return k.Value
 	}
-	if v, ok := typedKeyCache20[k.Value]; ok {
-		return v
+	typedKeyMu20.Lock()
+	v0, ok0 := typedKeyCache20[k.Value]
+	typedKeyMu20.Unlock()
+	if ok0 {
+		return v0
 	}
 	out := k.Value
 	if v, err := jsonValue20(k.Value + ": 0\n"); err == nil {
@@ -1011,7 +1016,9 @@ func typedKey20(k *yaml.Node) string {
 			}
 		}
 	}
+	typedKeyMu20.Lock()
 	typedKeyCache20[k.Value] = out
+	typedKeyMu20.Unlock()
 	return out
 }
 
@@ -1590,8 +1597,50 @@ func known20Classes() map[string]bool {
 	return map[string]bool{}
 }
 
+// work20: one case with everything computed on the implementation (done in parallel by runBatch20);
+// the bookkeeping in record20 is sequential and in generation order, so the output is deterministic.
+type work20 struct {
+	c       case20
+	toModel bool
+	src     string
+	res     result20
+	vs      []verdict20
+	info    map[string]string
+}
+
+func runBatch20(r *Run, batch []*work20) {
+	workers := 8
+	ch := make(chan *work20)
+	done := make(chan bool)
+	for w := 0; w < workers; w++ {
+		go func() {
+			for j := range ch {
+				j.res = runImpl20(j.c, j.toModel)
+				if j.res.skipWhy != "read-error" && j.res.skipWhy != "empty-stream" {
+					j.vs, j.info = laws20(j.c)
+				}
+			}
+			done <- true
+		}()
+	}
+	for _, j := range batch {
+		ch <- j
+	}
+	close(ch)
+	for w := 0; w < workers; w++ {
+		<-done
+	}
+	for _, j := range batch {
+		record20(r, j)
+	}
+}
+
 func runOne20(r *Run, c case20, toModel bool, src string) {
-	res := runImpl20(c, true)
+	runBatch20(r, []*work20{{c: c, toModel: toModel, src: src}})
+}
+
+func record20(r *Run, j *work20) {
+	c, toModel, src, res := j.c, j.toModel, j.src, j.res
 	r.Count("source", src)
 	if res.skipWhy == "read-error" || res.skipWhy == "empty-stream" {
 		r.Count("outcome", res.skipWhy)
@@ -1640,7 +1689,7 @@ func runOne20(r *Run, c case20, toModel bool, src string) {
 	} else {
 		r.AddEval(c.Yaml, res.nontrivial)
 	}
-	vs, info := laws20(c)
+	vs, info := j.vs, j.info
 	if v, ok := info["comments"]; ok {
 		r.Count("comment_oracle", v)
 	}
@@ -1701,7 +1750,7 @@ func bucket20(n int) string {
 func runC20(r *Run, rng *Rng, tier string) error {
 	nModel, nLaw := 360, 1600
 	if tier == "thorough" {
-		nModel, nLaw = 2400, 30000
+		nModel, nLaw = 2400, 20000
 	}
 	r.Meta.Rule = "streams of 1-3 generated resource documents (workload / webhook / configmap / free-form shapes; whitelisted and other kinds; " +
 		"known + unknown field names in shuffled order; keyed and primitive lists incl. the whitelisted paths; adversarial scalars; " +
@@ -1720,14 +1769,26 @@ func runC20(r *Run, rng *Rng, tier string) error {
 	for _, c := range loadCorpus20() {
 		runOne20(r, c, true, "corpus")
 	}
+	batch := []*work20{}
+	flush := func() {
+		runBatch20(r, batch)
+		batch = batch[:0]
+	}
 	for i := 0; i < nModel; i++ {
 		g := rng.Fork()
-		runOne20(r, genCase20(g), true, "generated-model")
+		batch = append(batch, &work20{c: genCase20(g), toModel: true, src: "generated-model"})
+		if len(batch) >= 256 {
+			flush()
+		}
 	}
 	for i := 0; i < nLaw; i++ {
 		g := rng.Fork()
-		runOne20(r, genCase20(g), false, "generated-laws")
+		batch = append(batch, &work20{c: genCase20(g), toModel: false, src: "generated-laws"})
+		if len(batch) >= 256 {
+			flush()
+		}
 	}
+	flush()
 	return nil
 }
 
